@@ -11,6 +11,7 @@ import (
 
 	"github.com/ogen-go/ogen"
 	"github.com/ogen-go/ogen/jsonpointer"
+	"github.com/ogen-go/ogen/jsonschema"
 	"github.com/ogen-go/ogen/location"
 	"github.com/ogen-go/ogen/openapi"
 	"github.com/ogen-go/ogen/uri"
@@ -220,3 +221,43 @@ func verifTwoPathKeys(a, b string, paths map[string]location.Pointer, pathsLoc l
 	second = verifPathKeyCheck(b, paths, pathsLoc, file)
 	return first, second
 }
+
+var _ jsonschema.Ref
+
+// ---------------------------------------------------------------------------
+// C07, "the dereferenced spec ogen can emit parses back to an equivalent API": when the expander turns a
+// reference into a LOCAL component reference it must never let two different references share one local
+// name (the second would silently denote the first one's target). Data-structure contract over the
+// table localToRemote (local reference -> the reference it stands for): a local name is handed out only
+// if the table has no entry for it or the entry is for the SAME reference (location and pointer); a
+// clash is an error that changes nothing; otherwise exactly that entry is written.
+// ---------------------------------------------------------------------------
+
+// componentName: the last reference token of the pointer (generateComponentName: LastIndexByte, trusted
+// pure function of the reference here).
+//@ func (e *expander) generateComponentName(ref jsonschema.Ref) (name string, err error)
+//@   trusted small string function (strings.LastIndexByte); a deterministic function of the reference
+//@   pure
+
+func specLocalName(e *expander, ref jsonschema.Ref) string {
+	n, _ := e.generateComponentName(ref)
+	return n
+}
+
+func specNameFails(e *expander, ref jsonschema.Ref) bool {
+	_, err := e.generateComponentName(ref)
+	return err != nil
+}
+
+//@ func (e *expander) generateComponentLocalRef(prefix string, ref jsonschema.Ref, parentPtr location.Pointer) (localRef string, name string, err error)
+//@   requires table: e.localToRemote != nil
+//@   modifies e.localToRemote[*]
+//@   ensures noname:   specNameFails(e, ref) ==> err != nil && (forall k string :: vHas(e.localToRemote, k) == vHas(old(e.localToRemote), k))
+//@   ensures clash:    !specNameFails(e, ref) && vHas(old(e.localToRemote), prefix + specLocalName(e, ref)) && old(e.localToRemote)[prefix + specLocalName(e, ref)].ref != ref ==>
+//@                       err != nil && (forall k string :: vHas(e.localToRemote, k) == vHas(old(e.localToRemote), k)) &&
+//@                       e.localToRemote[prefix + specLocalName(e, ref)].ref == old(e.localToRemote)[prefix + specLocalName(e, ref)].ref
+//@   ensures handed:   err == nil ==> !specNameFails(e, ref) && name == specLocalName(e, ref) && localRef == prefix + name &&
+//@                       (vHas(old(e.localToRemote), localRef) ==> old(e.localToRemote)[localRef].ref == ref) &&
+//@                       vHas(e.localToRemote, localRef) && e.localToRemote[localRef].ref == ref &&
+//@                       (forall k string :: k != localRef ==> vHas(e.localToRemote, k) == vHas(old(e.localToRemote), k) && e.localToRemote[k].ref == old(e.localToRemote)[k].ref)
+//@   ensures accept:   !specNameFails(e, ref) && !(vHas(old(e.localToRemote), prefix + specLocalName(e, ref)) && old(e.localToRemote)[prefix + specLocalName(e, ref)].ref != ref) ==> err == nil
